@@ -604,7 +604,12 @@ func GenLSpecNG(r *Rng, overlap bool) *LSpec {
 	s.Modes[0].Rules = append(s.Modes[0].Rules, &LRule{Expr: &LExpr{Alts: [][]*LTerm{{{Kind: LClass, Class: &LClassExpr{Items: []RRange{{'a', 'z'}}}, Card: "+"}}}}})
 	s.Modes[0].Rules = append(s.Modes[0].Rules, &LRule{Frag: true, Acts: []LAct{{Kind: "discard"}}, Expr: &LExpr{Alts: [][]*LTerm{{{Kind: LClass, Class: &LClassExpr{Items: []RRange{{' ', ' '}, {'\n', '\n'}}}, Card: "+"}}}}})
 	if r.Bool() {
-		s.Modes[0].Rules = append(s.Modes[0].Rules, &LRule{Expr: &LExpr{Alts: [][]*LTerm{{{Kind: LClass, Class: &LClassExpr{Items: []RRange{{'0', '9'}}}, Card: "+"}}}}})
+		// digits: greedy, or a rule that is nothing but a `+?` term (documented: exactly one digit per token)
+		card := "+"
+		if r.Intn(3) == 0 {
+			card = "+?"
+		}
+		s.Modes[0].Rules = append(s.Modes[0].Rules, &LRule{Expr: &LExpr{Alts: [][]*LTerm{{{Kind: LClass, Class: &LClassExpr{Items: []RRange{{'0', '9'}}}, Card: card}}}}})
 	}
 	if overlap {
 		// a greedy rule that starts like the first non-greedy rule and continues with its body characters
